@@ -683,6 +683,17 @@ func (e *SpecEnv) evalCall(c *ast.CallExpr) SVal {
 			specFail("typed(): argument is not a pointer to a declared heaptype")
 		}
 		return SVal{S: sAnd(sEq(app("objtype", pObj(v.S)), fmt.Sprint(g.typeID(et))), sEq(pOff(v.S), g.M.IxLit(0)), app("<=", pObj(v.S), e.st.Alloc)), T: bt, Sort: "Bool"}
+	case "disjoint":
+		// disjoint(r1, r2): the two locations (assigns-clause syntax) share no cell
+		r1, err1 := e.EvalRegion(args[0])
+		r2, err2 := e.EvalRegion(args[1])
+		if err1 != nil || err2 != nil {
+			specFail("disjoint: %v %v", err1, err2)
+		}
+		if r1.Whole || r2.Whole || r1.TypeID != "" || r2.TypeID != "" {
+			return SVal{S: sNot(sEq(r1.Obj, r2.Obj)), T: bt, Sort: "Bool"}
+		}
+		return SVal{S: sOr(sNot(sEq(r1.Obj, r2.Obj)), g.M.ixLe(r1.Hi, r2.Lo), g.M.ixLe(r2.Hi, r1.Lo)), T: bt, Sort: "Bool"}
 	case "visited":
 		// visited(k): key k has already been produced by the map iteration of the enclosing loop
 		if e.iter == "" {
@@ -780,6 +791,11 @@ func (e *SpecEnv) evalCall(c *ast.CallExpr) SVal {
 			}
 			sub = &n
 			return sub.eval(p.Body)
+		}
+		if name == "seqid" && len(args) == 1 {
+			if v := e.eval(args[0]); v.Sort == "Str" {
+				return SVal{S: app("seqOfStr", v.S), Sort: "Int", T: typInt}
+			}
 		}
 		if tf, ok := Theory[name]; ok {
 			var as []string
